@@ -425,10 +425,15 @@ def g13_fresh_state(o, matcher=None):
     if log is None or log.matcher_state_at_start is None:
         return out
     ms = log.matcher_state_at_start
-    if matcher is not None:
-        fresh = probe.matcher_state(type(matcher)(ms["default"]))
-    else:
-        fresh = probe.matcher_state(TokenMatcher(ms["default"] or "en"))
+    if ms.get("default") is None:
+        return out          # the matcher no longer exposes its default dialect under the known name: nothing to compare with
+    try:
+        if matcher is not None:
+            fresh = probe.matcher_state(type(matcher)(ms["default"]))
+        else:
+            fresh = probe.matcher_state(TokenMatcher(ms["default"]))
+    except Exception:
+        return out
     if ms != fresh:
         diff = {k: (ms.get(k), fresh.get(k)) for k in set(ms) | set(fresh) if ms.get(k) != fresh.get(k)}
         out.append(("G13", {"what": "matcher state at parse start differs from a fresh matcher", "diff": common.short(diff, 500)}))
